@@ -142,6 +142,7 @@ def run(tier):
     chk = vlib.Check("C03", tier)
     quick = tier == "quick"
     chk.add_model([dict(module="MC_Aztec.tla", cfg="MC_Aztec.cfg", workers=4, timeout=3000, heap="6g"),
+                   dict(module="MC_AztecSel.tla", cfg="MC_AztecSel_quick.cfg" if quick else "MC_AztecSel_thorough.cfg", workers=6, timeout=3000, heap="4g"),
                    dict(module="MC_AztecHL.tla", cfg="MC_AztecHL_quick.cfg" if quick else "MC_AztecHL_thorough.cfg", workers=8, timeout=5000, heap="6g"),
                    dict(module="MC_AztecHL.tla", cfg="MC_AztecHL_prefix.cfg", workers=2, timeout=1000),
                    dict(module="MC_AztecHL.tla", cfg="MC_AztecHL_nofix.cfg", workers=2, timeout=1000, expect_violation="RoundTrip")])
